@@ -38,6 +38,9 @@ META = dict(
          "TaskiqDepends parameters - TaskiqState, Context, plain / async / generator providers, default or Annotated form - that only "
          "one / both / each has, bare or annotated message parameters, a further optional parameter, a **catch-all; sync vs async): every "
          "message naming it must enter the function find_task designates exactly once (entries of the other one are logged apart);"
+         " for ~8 percent 1-2 messages name a task BEFORE it is registered (skipped or run: no claim), the task is then registered while "
+         "listen() runs - through async_shared_broker or on the worker's broker - and 1-3 further messages naming it arrive strictly "
+         "after the registration: each of those must enter the function exactly once;"
          " Further family (own random stream): the REAL taskiq.api.run_receiver_task coroutine runs for the whole scenario over a scripted listen() that raises 0..3 times (ConnectionError, RuntimeError, TimeoutError, OSError, EOFError, a client's own class, a falsy exception object, an ExceptionGroup, BrokerError) as the first thing a session does / right after taking a message / while tasks are in flight / while idle, the remaining messages going to the re-started listening; N and wait_tasks_timeout set by the receiver class handed to it, stop = the finish event it gave to listen(); decided by the direct oracles only, every listen() session held to the statement by its own messages; "
          "further family: run_receiver_task cancelled by the application that embeds it while sync functions (with durations) wait in a "
          "pool of 1..3 threads (recv_props.gen_live_cancel): a message acknowledged under when_executed / when_saved must have entered its function, un-run un-acknowledged messages are not claimed; "
@@ -56,6 +59,10 @@ META = dict(
                  "had started is claimed only until run_receiver_task itself has ended)",
                  "a message naming a task that is registered strictly before the message arrives - on the worker's broker or in the "
                  "global registry - is a valid known-task message",
+                 "a message that arrives BEFORE the task it names is registered (the registration follows while listen() runs; "
+                 "recv_props.decorate_early) is skipped like an unknown-task message or - its callback started only after the "
+                 "registration - executed like a valid one: no claim either way (at most one entry); every message naming the task "
+                 "that arrives strictly after the registration carries the full claim",
                  "pre_execute hooks that raise are the pipeline's concern (C10): such a message is exempt from 'must enter the body'",
                  "a task name registered with two functions: the function the message's task is = the one AsyncBroker.find_task hands out "
                  "(the worker's own registry first, then the global one; the later registration within one registry). A "
@@ -69,10 +76,13 @@ META = dict(
 # dup_p: one task name registered with two different functions (recv_props.decorate_dup); dup_stale_any: also pairs whose
 # injected parameters differ while the Receiver was built before the designated function was registered - the stale per-name
 # cache of the pinned snapshot (defect D19) is repaired in /repo 7e92bc1
-PROF = dict(stop_p=.4, n_p=.35, ends_p=.2, wtt_p=.25, never=.03, wire_p=.3, reg_p=.25, dup_p=.1, dup_stale_any=True, params_p=.12)
-PROF_BACKLOG = dict(backlog=True, stop_p=.3, n_p=.5, ends_p=.1, wtt_p=.2, wire_p=.3, reg_p=.15, dup_p=.1, dup_stale_any=True, params_p=.12)
+# early_p: 1-2 messages name a task BEFORE it is registered (no claim about them), the task is registered while listen() runs, later
+# messages naming it carry the full claim (recv_props.decorate_early)
+PROF = dict(stop_p=.4, n_p=.35, ends_p=.2, wtt_p=.25, never=.03, wire_p=.3, reg_p=.25, dup_p=.1, dup_stale_any=True, params_p=.12, early_p=.08)
+PROF_BACKLOG = dict(backlog=True, stop_p=.3, n_p=.5, ends_p=.1, wtt_p=.2, wire_p=.3, reg_p=.15, dup_p=.1, dup_stale_any=True, params_p=.12,
+                    early_p=.08)
 # run_receiver_task running for the whole scenario over a listen() that fails 0..3 times (recv_props.gen_live)
-PROF_LIVE = dict(stop_p=.4, n_p=.3, ends_p=.15, wtt_p=.2, wire_p=.2, reg_p=.3, dup_p=.1, dup_stale_any=True, params_p=.12)
+PROF_LIVE = dict(stop_p=.4, n_p=.3, ends_p=.15, wtt_p=.2, wire_p=.2, reg_p=.3, dup_p=.1, dup_stale_any=True, params_p=.12, early_p=.08)
 # run_receiver_task cancelled by the application that embeds it while sync functions wait in a small pool (recv_props.gen_live_cancel)
 PROF_CANCEL = dict(stop_p=.12, n_p=.08, ends_p=.1, wtt_p=.08, slowcancel=.05, aw_p=.12, outage_p=.05, wire_p=.1)
 
@@ -190,6 +200,7 @@ def explore(ctx, rep, scs, label):
             rep.fail(f["what"], sc, observed=f["observed"], expected=f["expected"], sig=f["sig"])
         rep.count("returned" if o["returned"] else "cut")
         R.count_inputs(rep, sc)
+        R.count_early(rep, sc, o)
         rep.count("N=%s" % ("set" if sc["N"] else None))
         rep.count("stop=%s" % ("set" if sc["stop_us"] is not None else None))
         for m in sc["msgs"]:
